@@ -159,4 +159,140 @@ theorem outputNoCb_sim (Sh : Shape E κ) (cfg : Cfg α β) (P : PureConv cfg.cou
     rw [List.getD_eq_getElem?_getD, List.getElem?_map, List.getElem?_map, hx]; rfl
   · simp [h.len]
 
+/-- the answers of the input function as the 1-channel resampler sees them -/
+def projReplies (cfg : Cfg α β) (c : Nat) (rs : List (Nat → FnReply β)) : List (Nat → FnReply β) :=
+  rs.map (fun r req => projReply cfg c (r req))
+
+theorem stopNow_rel (Sh : Shape E κ) {c ch : Nat} {S s : St σ} (h : Rel Sh c ch S s) (a b : Nat) :
+    stopNow s a b = stopNow S a b := by
+  unfold stopNow; rw [h.fn, h.flushing]
+
+theorem goOn_rel (Sh : Shape E κ) {c ch : Nat} {S s : St σ} (h : Rel Sh c ch S s) (a b : Nat) :
+    goOn s a b = goOn S a b := by
+  unfold goOn; rw [h.flushing]
+
+theorem rel_setFlushing (Sh : Shape E κ) {c ch : Nat} {S s : St σ} (h : Rel Sh c ch S s) :
+    Rel Sh c ch S.setFlushing s.setFlushing :=
+  ⟨h.hc, h.len, h.clen, h.uni, h.eng, h.clips, rfl, h.error, h.fn, h.seed⟩
+
+theorem rel_setError (Sh : Shape E κ) {c ch : Nat} {S s : St σ} (h : Rel Sh c ch S s) (e : Err) :
+    Rel Sh c ch (S.setError e) (s.setError e) :=
+  ⟨h.hc, h.len, h.clen, h.uni, h.eng, h.clips, h.flushing, rfl, h.fn, h.seed⟩
+
+theorem pullLoop_sim (Sh : Shape E κ) (cfg : Cfg α β) (P : PureConv cfg.cout) {c : Nat} (ilen len0 : Nat)
+    (rs : List (Nat → FnReply β)) :
+    ∀ {S s : St σ} (_ : Rel Sh c cfg.ch S s) (olen odone0 : Nat) (acc : List (List β)) (_ : acc.length = cfg.ch),
+      Rel Sh c cfg.ch (pullLoop E cfg ilen len0 rs S olen odone0 acc).1
+        (pullLoop E (monoCfg cfg) ilen len0 (projReplies cfg c rs) s olen odone0 [acc.getD c []]).1 ∧
+      (pullLoop E (monoCfg cfg) ilen len0 (projReplies cfg c rs) s olen odone0 [acc.getD c []]).2.1
+        = (pullLoop E cfg ilen len0 rs S olen odone0 acc).2.1 ∧
+      (pullLoop E (monoCfg cfg) ilen len0 (projReplies cfg c rs) s olen odone0 [acc.getD c []]).2.2
+        = [(pullLoop E cfg ilen len0 rs S olen odone0 acc).2.2.getD c []] ∧
+      (pullLoop E cfg ilen len0 rs S olen odone0 acc).2.2.length = cfg.ch := by
+  induction rs with
+  | nil =>
+    intro S s h olen odone0 acc hacc
+    obtain ⟨hrel, hd, ho, hl⟩ := outputNoCb_sim Sh cfg P h olen
+    have happ : appendCh [acc.getD c []] (outputNoCb E (monoCfg cfg) s olen).2.2
+        = [(appendCh acc (outputNoCb E cfg S olen).2.2).getD c []] := by
+      rw [ho, appendCh_singleton, appendCh_getD _ _ _ (by rw [hacc, hl])]
+    have happl : (appendCh acc (outputNoCb E cfg S olen).2.2).length = cfg.ch := by
+      rw [appendCh_length _ _ (by rw [hacc, hl]), hacc]
+    unfold pullLoop projReplies
+    simp only [List.map_nil, hd, stopNow_rel Sh hrel, happ]
+    cases stopNow (outputNoCb E cfg S olen).1 (odone0 + (outputNoCb E cfg S olen).2.1) len0
+    · obtain ⟨hrel3, hd3, ho3, hl3⟩ :=
+        outputNoCb_sim Sh cfg P (rel_setFlushing Sh hrel) (olen - (outputNoCb E cfg S olen).2.1)
+      simp only [Bool.false_eq_true, if_false]
+      refine ⟨hrel3, ?_, ?_, ?_⟩
+      · rw [hd3]
+      · rw [ho3, appendCh_singleton, appendCh_getD (appendCh acc (outputNoCb E cfg S olen).2.2) _ c (by rw [happl, hl3])]
+      · rw [appendCh_length _ _ (by rw [happl, hl3]), happl]
+    · simp only [if_true]
+      exact ⟨hrel, by simp, by simp, happl⟩
+  | cons r rs ih =>
+    intro S s h olen odone0 acc hacc
+    obtain ⟨hrel, hd, ho, hl⟩ := outputNoCb_sim Sh cfg P h olen
+    have happ : appendCh [acc.getD c []] (outputNoCb E (monoCfg cfg) s olen).2.2
+        = [(appendCh acc (outputNoCb E cfg S olen).2.2).getD c []] := by
+      rw [ho, appendCh_singleton, appendCh_getD _ _ _ (by rw [hacc, hl])]
+    have happl : (appendCh acc (outputNoCb E cfg S olen).2.2).length = cfg.ch := by
+      rw [appendCh_length _ _ (by rw [hacc, hl]), hacc]
+    unfold pullLoop projReplies
+    simp only [List.map_cons, hd, stopNow_rel Sh hrel, happ]
+    cases stopNow (outputNoCb E cfg S olen).1 (odone0 + (outputNoCb E cfg S olen).2.1) len0
+    · simp only [Bool.false_eq_true, if_false]
+      cases hr : r ilen with
+      | fail =>
+        simp only [projReply]
+        exact ⟨rel_setError Sh hrel _, by simp, by simp, happl⟩
+      | data n b =>
+        simp only [projReply]
+        obtain ⟨hrel2, -⟩ := input_sim Sh cfg hrel (some b) n n (Nat.le_refl n)
+        rw [Option.map_some] at hrel2
+        rw [goOn_rel Sh hrel2]
+        cases goOn (input E cfg (outputNoCb E cfg S olen).1 (some b) n).1 (outputNoCb E cfg S olen).2.1 n
+        · simp only [Bool.false_eq_true, if_false]
+          exact ⟨hrel2, by simp, by simp, happl⟩
+        · simp only [if_true]
+          exact ih hrel2 _ _ _ happl
+    · simp only [if_true]
+      exact ⟨hrel, by simp, by simp, happl⟩
+
+theorem output_sim (Sh : Shape E κ) (cfg : Cfg α β) (P : PureConv cfg.cout) {c : Nat} {S s : St σ}
+    (h : Rel Sh c cfg.ch S s) (op : Bool) (len0 : Nat) (rs : List (Nat → FnReply β)) :
+    Rel Sh c cfg.ch (output E cfg S op len0 rs).1 (output E (monoCfg cfg) s op len0 (projReplies cfg c rs)).1 ∧
+    (output E (monoCfg cfg) s op len0 (projReplies cfg c rs)).2.1 = (output E cfg S op len0 rs).2.1 ∧
+    (output E (monoCfg cfg) s op len0 (projReplies cfg c rs)).2.2 = [(output E cfg S op len0 rs).2.2.getD c []] ∧
+    (output E cfg S op len0 rs).2.2.length = cfg.ch := by
+  have hb : (blank (monoCfg cfg).ch : List (List β)) = [(blank cfg.ch : List (List β)).getD c []] := by
+    rw [blank_getD]; rfl
+  unfold output
+  rw [h.error, h.fn]
+  split
+  · exact ⟨h, rfl, hb, blank_length _⟩
+  · split
+    · exact ⟨⟨h.hc, h.len, h.clen, h.uni, h.eng, h.clips, h.flushing, rfl, rfl, h.seed⟩, rfl, hb, blank_length _⟩
+    · rw [hb]
+      exact pullLoop_sim Sh cfg P _ _ rs h _ _ _ (blank_length _)
+
+/-! ### the both-split loop of `soxr_process` -/
+
+theorem lastLen_cons (r : List α × σ) (rs : List (List α × σ)) :
+    lastLen (r :: rs) = if rs = [] then r.1.length else lastLen rs := by
+  cases rs with
+  | nil => rfl
+  | cons a as => simp [lastLen, List.getLast?_cons_cons]
+
+/-- the loop as written (input and output of channel `u` interleaved, `odone` overwritten) computes the same as:
+    all inputs, then all outputs, then the conversions in channel order -/
+theorem splitLoop_nf (cfg : Cfg α β) (fl : Bool) (inb : Option (InBuf β)) (ilen olen : Nat) (eng : List σ) :
+    ∀ (i seed : Nat),
+    splitLoop E cfg fl inb ilen olen i eng seed =
+      ( ((eng.mapIdx (fun k e => feed1 E cfg inb ilen (i + k) e)).map (fun e => out1 E fl e olen)).map (·.2),
+        (convAll cfg.cout seed (((eng.mapIdx (fun k e => feed1 E cfg inb ilen (i + k) e)).map
+            (fun e => out1 E fl e olen)).map (·.1))).1,
+        (convAll cfg.cout seed (((eng.mapIdx (fun k e => feed1 E cfg inb ilen (i + k) e)).map
+            (fun e => out1 E fl e olen)).map (·.1))).2.1,
+        (convAll cfg.cout seed (((eng.mapIdx (fun k e => feed1 E cfg inb ilen (i + k) e)).map
+            (fun e => out1 E fl e olen)).map (·.1))).2.2,
+        if eng = [] then none else some (lastLen ((eng.mapIdx (fun k e => feed1 E cfg inb ilen (i + k) e)).map
+            (fun e => out1 E fl e olen))) ) := by
+  induction eng with
+  | nil => intro i seed; rfl
+  | cons e es ih =>
+    intro i seed
+    unfold splitLoop
+    simp only [ih (i + 1)]
+    simp only [List.mapIdx_cons, List.map_cons, convAll, Nat.add_zero, reduceCtorEq, if_false, lastLen_cons]
+    have hidx : ∀ k, i + 1 + k = i + (k + 1) := by intro k; omega
+    simp only [hidx]
+    congr 1
+    congr 1
+    congr 1
+    congr 1
+    cases es with
+    | nil => rfl
+    | cons a as => simp
+
 end Soxr.Chan
